@@ -419,6 +419,28 @@ func (t *T) IsMatchUnionType(targetT *T) bool {
 	}
 }
 
+// IsSupersetUnionOf reports whether every variant type of the union argT
+// (untyped variants aside) is a variant type of the union t.
+func (t *T) IsSupersetUnionOf(argT *T) bool {
+	if t == nil || argT == nil || !t.IsUnionType() || !argT.IsUnionType() {
+		return false
+	}
+
+	types := t.GetVariantTypes()
+
+	for _, argType := range argT.GetVariantTypes() {
+		if argType == UNTYPED {
+			continue
+		}
+
+		if !slices.Contains(types, argType) {
+			return false
+		}
+	}
+
+	return true
+}
+
 func (t *T) HasDefault() bool {
 	if t == nil {
 		return false
